@@ -244,7 +244,7 @@ func solve(file string, secs int, all bool) (Result, []Result) {
 	}
 	// stage 2: an `unsat` under any seed or solver is a proof, and hard queries are sensitive to the search order:
 	// race the base seed with the full budget, two other seeds and cvc5; the first `unsat` wins
-	specs := []solverSpec{solvers[0], z3EM, z3Seeded(solverSeed + 1), z3Seeded(solverSeed + 2)}
+	specs := []solverSpec{solvers[0], z3EM, z3Seeded(solverSeed + 1), z3Seeded(solverSeed + 2), z3Seeded(solverSeed + 3)}
 	specs = append(specs, solvers[1:]...)
 	ctx, cancel := context.WithCancel(context.Background())
 	defer cancel()
